@@ -2,3 +2,8 @@ import CspuzModel.Properties.C10
 #print axioms Cspuz.C10.C10_exact_aux
 #print axioms Cspuz.C10.C10_exact_prim
 #print axioms Cspuz.C10.C10_total
+#print axioms Cspuz.C10.C10_general_aux
+#print axioms Cspuz.C10.C10_general_prim
+#print axioms Cspuz.C10.C10_general_total
+#print axioms Cspuz.C10.C10_fresh_ok
+#print axioms Cspuz.C10.C10_general_implies_exact
